@@ -10,6 +10,7 @@ import (
 	"math/big"
 	"runtime"
 	"sort"
+	"strconv"
 	"strings"
 	"sync"
 	"time"
@@ -759,6 +760,166 @@ func judgeCost(c *GenCtx, ops []Op) []Diff {
 			if slow == 3 || got == "timeout" {
 				out = append(out, jf(op.Family, string(op.Expr), op.Data, fmt.Sprintf("%s after %v, %d bytes allocated", outcomeClass(got), el, alloc), "≤ 50ms, ≤ 8MiB",
 					"the magnitude of an integer parameter drives running time or allocation"))
+			}
+		}
+		if len(out) > 20 {
+			break
+		}
+	}
+	return out
+}
+
+// ---------------------------------------------------------------------------------------------
+// C13: an oracle for the sort family that does not go through the model (which declines — `nondet` — whenever two
+// numbers are equal in value but differ in spelling): the implementation's result must be a permutation of the input
+// in non-decreasing order of value, sort_by must keep equal keys in input order, max/min must be extremal.
+
+func sortKeyCmp(a, b any) (int, bool) {
+	switch x := a.(type) {
+	case json.Number:
+		y, ok := b.(json.Number)
+		if !ok {
+			return 0, false
+		}
+		rx, ok1 := new(big.Rat).SetString(string(x))
+		ry, ok2 := new(big.Rat).SetString(string(y))
+		if !ok1 || !ok2 {
+			return 0, false
+		}
+		return rx.Cmp(ry), true
+	case string:
+		y, ok := b.(string)
+		if !ok {
+			return 0, false
+		}
+		return strings.Compare(x, y), true // bytewise = code point order for valid UTF-8
+	}
+	return 0, false
+}
+
+func judgeSort(c *GenCtx, ops []Op) []Diff {
+	var out []Diff
+	for _, op := range ops {
+		if op.Family != "sort" || op.Kind != "S" {
+			continue
+		}
+		e := string(op.Expr)
+		if e != "sort(plain)" && e != "sort_by(objs, &k)[*].i" && e != "max(plain)" && e != "min(plain)" && e != "sort_by(objs, &k)" {
+			continue
+		}
+		data, err := parseXJSON(op.Data)
+		if err != nil {
+			continue
+		}
+		doc, _ := data.(map[string]any)
+		plain, _ := doc["plain"].([]any)
+		objs, _ := doc["objs"].([]any)
+		res, serr := func() (r any, e error) {
+			defer func() {
+				if p := recover(); p != nil {
+					e = fmt.Errorf("panic: %v", p)
+				}
+			}()
+			return jmespath.Search(string(op.Expr), data)
+		}()
+		// comparable input? (all numbers with short spellings, or all strings)
+		comparable := len(plain) > 0
+		for i := range plain {
+			if _, ok := sortKeyCmp(plain[0], plain[i]); !ok {
+				comparable = false
+			}
+		}
+		fail := func(why string) {
+			out = append(out, jf("sort-oracle", e, op.Data, fmt.Sprintf("%v / %v", res, serr), "-", why))
+		}
+		if !comparable {
+			continue // mixed or exotic keys: the model decides those
+		}
+		if serr != nil {
+			fail("sorting an array of comparable values failed")
+			continue
+		}
+		switch e {
+		case "sort(plain)":
+			rs, ok := res.([]any)
+			if !ok || len(rs) != len(plain) {
+				fail("sort: result is not an array of the input's length")
+				continue
+			}
+			cnt := map[string]int{}
+			for _, v := range plain {
+				cnt[fmt.Sprintf("%T:%v", v, v)]++
+			}
+			for _, v := range rs {
+				cnt[fmt.Sprintf("%T:%v", v, v)]--
+			}
+			for _, n := range cnt {
+				if n != 0 {
+					fail("sort: result is not a permutation of the input (spellings included)")
+					break
+				}
+			}
+			for i := 1; i < len(rs); i++ {
+				if cmp, ok := sortKeyCmp(rs[i-1], rs[i]); !ok || cmp > 0 {
+					fail(fmt.Sprintf("sort: element %d is smaller in value than element %d", i, i-1))
+					break
+				}
+			}
+		case "sort_by(objs, &k)[*].i", "sort_by(objs, &k)":
+			rs, ok := res.([]any)
+			if !ok || len(rs) != len(objs) {
+				fail("sort_by: result is not an array of the input's length")
+				continue
+			}
+			idx := make([]int, len(rs))
+			seen := map[int]bool{}
+			bad := false
+			for j, v := range rs {
+				if m, ok := v.(map[string]any); ok {
+					v = m["i"]
+				}
+				n, ok := v.(json.Number)
+				if !ok {
+					bad = true
+					break
+				}
+				k, err := strconv.Atoi(string(n))
+				if err != nil || k < 0 || k >= len(objs) || seen[k] {
+					bad = true
+					break
+				}
+				seen[k] = true
+				idx[j] = k
+			}
+			if bad {
+				fail("sort_by: result is not a permutation of the input elements")
+				continue
+			}
+			for j := 1; j < len(idx); j++ {
+				cmp, ok := sortKeyCmp(plain[idx[j-1]], plain[idx[j]])
+				if !ok || cmp > 0 {
+					fail(fmt.Sprintf("sort_by: key at position %d is smaller than the key before it", j))
+					break
+				}
+				if cmp == 0 && idx[j-1] > idx[j] {
+					fail(fmt.Sprintf("sort_by: elements %d and %d have equal keys but changed their relative order (not stable)", idx[j], idx[j-1]))
+					break
+				}
+			}
+		case "max(plain)", "min(plain)":
+			want := plain[0]
+			for _, v := range plain[1:] {
+				cmp, _ := sortKeyCmp(v, want)
+				if (e == "max(plain)" && cmp > 0) || (e == "min(plain)" && cmp < 0) {
+					want = v
+				}
+			}
+			got := res
+			if d, ok := got.(decimal128.Decimal); ok {
+				got = json.Number(d.String())
+			}
+			if cmp, ok := sortKeyCmp(got, want); !ok || cmp != 0 {
+				fail(fmt.Sprintf("%s: result differs in value from the extremal element %v", e, want))
 			}
 		}
 		if len(out) > 20 {
